@@ -32,6 +32,8 @@ type Gen struct {
 	stats map[string]int
 	nTmp  int
 	loopD int
+
+	signed bool // this program may use signed integer types
 }
 
 type scope struct {
@@ -46,7 +48,20 @@ func (g *Gen) pick(ss []string) string { return ss[g.rng.Intn(len(ss))] }
 func bi(i int64) *big.Int { return big.NewInt(i) }
 
 func (g *Gen) randBase() string {
-	// unsigned types dominate, as in std/
+	// unsigned types dominate, as in std/; signed types only in some programs
+	if !g.signed {
+		switch g.rng.Intn(8) {
+		case 0, 1, 2:
+			return "u32"
+		case 3, 4:
+			return "u8"
+		case 5:
+			return "u16"
+		case 6:
+			return "u64"
+		}
+		return g.pick(unsignedBases)
+	}
 	switch g.rng.Intn(10) {
 	case 0:
 		return "i32"
@@ -549,7 +564,13 @@ func (g *Gen) whileStmt(blk *[]*Stmt, depth int) {
 		step = 2 + g.rng.Intn(2)
 	}
 	i := iv.Name
-	tmpl := g.rng.Intn(10)
+	tmpl := g.rng.Intn(18)
+	if tmpl >= 10 {
+		tmpl -= 10 // the free-form condition (tmpl 8, 9) is rarer: it often does not terminate
+		if tmpl >= 8 {
+			tmpl = 0
+		}
+	}
 	var init, header, incr string
 	incrFirst := false
 	switch {
@@ -701,6 +722,7 @@ func (g *Gen) NewProgram() *Prog {
 	p := &Prog{}
 	g.p = p
 	g.nTmp = 0
+	g.signed = g.rng.Chance(1, 7)
 	nf := 2 + g.rng.Intn(4)
 	for i := 0; i < nf; i++ {
 		p.Fields = append(p.Fields, Var{fmt.Sprintf("f%d", i), g.randScalarTy(true, 30)})
